@@ -65,6 +65,11 @@ ChildStep(prop, sa, pfx, prf, skd, nonce, encrBits, integName) ==
        [panic |-> FALSE, err |-> FALSE] @@ ChildKeyRec(pfx, prf, el, al))
   @@ [defs |-> ChildKeyDefs(pfx, prf, skd, nonce, el, al)]
 
+\* the same derivation on a Child SA object that came out of a negotiated ESP proposal (via: "proposal" = no DH transform offered,
+\* "proposal-dh2" / "proposal-dh14")
+ChildStepVia(prop, sa, pfx, prf, skd, nonce, encrBits, integName, via) ==
+  [ChildStep(prop, sa, pfx, prf, skd, nonce, encrBits, integName) EXCEPT !.args = @ @@ [via |-> via]]
+
 RECURSIVE DefsOf(_)
 DefsOf(steps) == IF Len(steps) = 0 THEN << >>
                  ELSE (IF "defs" \in DOMAIN Head(steps) THEN Head(steps).defs ELSE << >>) \o DefsOf(Tail(steps))
